@@ -3058,11 +3058,96 @@ class WrapperProfile(PureProfile):
         return None
 
 
+def split_args(toks):
+    """token list of a call's argument list -> list of argument token lists (top-level commas)"""
+    args, cur, depth = [], [], 0
+    for t in toks:
+        if t[1] in ("(", "[", "{", "<"):
+            depth += 1
+        if t[1] in (")", "]", "}", ">"):
+            depth -= 1
+        if t[1] == "," and depth == 0:
+            args.append(cur); cur = []
+        else:
+            cur.append(t)
+    if cur:
+        args.append(cur)
+    return args
+
+
+def check_ctor_wiring(fns, rel, branch_fn, caller, engine_rel, engine_ty):
+    """the attribute values must reach the constructor parameters of the same name: (1) every `<Engine>::new(…)` in the branch
+    template passes `#<p>_expr` for parameter `p` (limit and max_memory have the same type — a swap compiles), the statics for
+    map / order / stats; (2) the proc macro hands `attrs.<p>` to the branch generator's parameter `<p>_expr`"""
+    eng_news = [f for (_, f) in parse_source(os.path.join(REPO, engine_rel)) if f["name"] == "new"]
+    if not eng_news:
+        raise Untranslatable(f"{engine_rel}: `{engine_ty}::new` is missing")
+    want = {"map": "cache_ident", "cache": "cache_ident", "order": "order_ident", "stats": "stats_ident"}
+    f = fns.get(branch_fn)
+    if f is None:
+        raise Untranslatable(f"{rel}: `{branch_fn}` is missing")
+    toks = list(body_of(f)[2][2])
+    found = 0
+    for i in range(len(toks) - 1):
+        if toks[i][1] == "new" and toks[i + 1][1] == "(" and any(t[1] == engine_ty for t in toks[max(0, i - 8):i]):
+            depth, j = 0, i + 1
+            while True:
+                if toks[j][1] == "(":
+                    depth += 1
+                if toks[j][1] == ")":
+                    depth -= 1
+                    if depth == 0:
+                        break
+                j += 1
+            args = split_args(toks[i + 2:j])
+            cands = [n for n in eng_news if len([p for p in n["params"] if p[0] != "self"]) == len(args)]
+            if not cands:
+                raise Untranslatable(f"{rel}: `{branch_fn}` calls `{engine_ty}::new` with {len(args)} arguments; no constructor takes that many")
+            params = [p[0] for p in cands[0]["params"] if p[0] != "self"]
+            for pn, a in zip(params, args):
+                names = [a[m + 1][1] for m in range(len(a) - 1) if a[m][1] == "#"]
+                exp = want.get(pn, pn + "_expr")
+                if names != [exp]:
+                    raise Untranslatable(f"{rel}: `{branch_fn}`: parameter `{pn}` of `{engine_ty}::new` receives `{' '.join(t[1] for t in a)}` (expected `#{exp}`)")
+            found += 1
+    if not found:
+        raise Untranslatable(f"{rel}: `{branch_fn}` no longer builds `__cache` by `{engine_ty}::new`")
+    # (2) the call of the branch generator in the proc macro (token level: the proc-macro function uses constructs outside the subset)
+    ptoks = production_tokens(rel)
+    sites = [k for k in range(1, len(ptoks) - 1) if ptoks[k][1] == branch_fn and ptoks[k + 1][1] == "(" and ptoks[k - 1][1] != "fn"]
+    if len(sites) != 1:
+        raise Untranslatable(f"{rel}: `{branch_fn}` is called {len(sites)} times")
+    k = sites[0] + 1
+    depth, j2 = 0, k
+    while True:
+        if ptoks[j2][1] == "(":
+            depth += 1
+        if ptoks[j2][1] == ")":
+            depth -= 1
+            if depth == 0:
+                break
+        j2 += 1
+    cargs = [" ".join(t[1] for t in a).replace("& ", "").replace(" ", "") for a in split_args(ptoks[k + 1:j2])]
+    params = [pn for (pn, _) in f["params"]]
+    if len(params) != len(cargs):
+        raise Untranslatable(f"{rel}: `{branch_fn}` takes {len(params)} parameters, its caller passes {len(cargs)}")
+    for pn, a in zip(params, cargs):
+        if pn.endswith("_expr") and pn != "key_expr":
+            if a != "attrs." + pn[:-5]:
+                raise Untranslatable(f"{rel}: the caller passes `{a}` for `{pn}` of `{branch_fn}` (expected `attrs.{pn[:-5]}`)")
+        elif pn in ("cache_ident", "order_ident", "stats_ident", "key_expr", "is_result"):
+            if a != pn:
+                raise Untranslatable(f"{rel}: the caller passes `{a}` for `{pn}` of `{branch_fn}`")
+    return found
+
+
 def translate_wrapper():
     """Generated/PureWrap.lean: 16 configurations x {Thread, Global}"""
     rel = "cachelito-macros/src/lib.rs"
     path = os.path.join(REPO, rel)
     fns = {f["name"]: f for (_, f) in parse_source(path)}
+    check_ctor_wiring(fns, rel, "generate_thread_local_branch", "cache", "cachelito-core/src/thread_local_cache.rs", "ThreadLocalCache")
+    check_ctor_wiring(fns, rel, "generate_global_branch", "cache", "cachelito-core/src/global_cache.rs", "GlobalCache")
     out = []
     info = {"configs": []}
     for module, branch_fn in (("Thread", "generate_thread_local_branch"), ("Global", "generate_global_branch")):
